@@ -10,6 +10,7 @@ import (
 	"strings"
 
 	kv "github.com/XiXi-2024/xixi-kv"
+	"github.com/XiXi-2024/xixi-kv/vsim/vclock"
 	"github.com/XiXi-2024/xixi-kv/vsim/vos"
 	"github.com/XiXi-2024/xixi-kv/vsim/vrt"
 )
@@ -105,6 +106,7 @@ func runConcCrash(r *Runner) {
 	}
 	r.FS.Mark(-1)
 	startB := len(r.FS.Journal)
+	clockB := vclock.NowNs() // the clients run at this instant of simulated time (the clock moves between steps only)
 	// ---- phase B: the clients, under the seeded scheduler
 	n := len(r.C.Clients)
 	tasks := make([]*ccTask, n)
@@ -200,7 +202,7 @@ func runConcCrash(r *Runner) {
 	ctx := &crashCtx{r: r, journal: journal, rng: vrt.NewRand(vrt.Mix(r.C.Seed, 0xcc4a)), followBatches: 1}
 	ctx.imgRoot = filepath.Join(ScratchBase, fmt.Sprintf("vsim-img-%d", os.Getpid()))
 	defer os.RemoveAll(ctx.imgRoot)
-	cc := &ccCtx{ctx: ctx, groups: groups, initial: initial, keys: r.keySpace()}
+	cc := &ccCtx{ctx: ctx, groups: groups, initial: initial, keys: r.keySpace(), clockB: clockB}
 	if r.C.Crash != nil {
 		if !ctx.pinFits(r.C.Crash) {
 			return
@@ -401,6 +403,7 @@ type ccCtx struct {
 	groups  []*cgroup
 	initial State
 	keys    []string
+	clockB  int64
 }
 
 // check judges the crash image at journal position k (reuse: the recovery of an identical image).
@@ -414,7 +417,8 @@ func (cc *ccCtx) check(k int, cut map[int]int, power bool, reuse *recovery) *rec
 	if power {
 		kind = "power"
 	}
-	pin := func() { r.C.Crash = &Crash{Pos: k, Cut: cut, Power: power} }
+	clockBack := false
+	pin := func() { r.C.Crash = &Crash{Pos: k, Cut: cut, Power: power, ClockBack: clockBack} }
 	rec := reuse
 	if rec == nil {
 		tree := vos.Replay(nil, journal, k, cut)
@@ -433,12 +437,23 @@ func (cc *ccCtx) check(k int, cut map[int]int, power bool, reuse *recovery) *rec
 		if power || ctx.images%4 == 0 || r.C.Crash != nil {
 			follow = ctx.usability(r.C.Cfg)
 		}
+		// the wall clock stepped back across the crash to the instant the clients ran at (see the crash arm): ids
+		// the follow-up's batches draw from the clock must not collide with those of batches that died unsealed
+		ctx.clockBack = 0
+		if follow != nil && (r.C.Crash == nil && ctx.images%2 == 1 || r.C.Crash != nil && r.C.Crash.ClockBack) {
+			ctx.clockBack = cc.clockB
+			clockBack = true
+		}
 		rec = ctx.recoverImage(tree, r.C.Cfg, false, follow)
+		ctx.clockBack = 0
 		os.RemoveAll(rec.root)
 	} else {
 		r.inc("cc_images_shared")
 	}
 	where := cc.describe(k, cut, power)
+	if clockBack {
+		where += "; the wall clock was stepped back to the instant of the concurrent phase while the process was down"
+	}
 	if rec.oracle == "infra" {
 		r.Infra = rec.failure
 		return rec
